@@ -398,7 +398,7 @@ func compareTS(a simenv.AggReq, got []tsBin, docs []*model.Doc) string {
 			if (a.Field != "big" && g.Sum != wb.Sum) || g.Min != wb.Min || g.Max != wb.Max {
 				return fmt.Sprintf("cell %q@%d sum/min/max %v/%v/%v, model %v/%v/%v", g.Tok, g.MID, g.Sum, g.Min, g.Max, wb.Sum, wb.Min, wb.Max)
 			}
-			if a.Func == "quantile" && len(wb.Samples) <= 8096 {
+			if a.Func == "quantile" && len(wb.Samples) <= seq.VerifMaxHistogramSamples() {
 				gs := append([]float64(nil), g.Samples...)
 				sort.Float64s(gs)
 				if len(gs) != len(wb.Samples) {
@@ -465,7 +465,7 @@ func compareAgg(a simenv.AggReq, got *pb.SearchResponse_Agg, want *model.AggExpe
 			if (a.Field != "big" && gb.Sum != wb.Sum) || gb.Min != wb.Min || gb.Max != wb.Max {
 				return fmt.Sprintf("bin %q sum/min/max %v/%v/%v, model %v/%v/%v", k, gb.Sum, gb.Min, gb.Max, wb.Sum, wb.Min, wb.Max)
 			}
-			if a.Func == "quantile" && len(wb.Samples) <= 8096 {
+			if a.Func == "quantile" && len(wb.Samples) <= seq.VerifMaxHistogramSamples() {
 				gs := append([]float64(nil), gb.Samples...)
 				sort.Float64s(gs)
 				if len(gs) != len(wb.Samples) {
